@@ -2,6 +2,7 @@
  *
  *   srv <mpr> <mts> <known> <unk> <prx> <res> <verdict> <pu> <dst> <hex>
  *   srvq … a sequence of datagrams from several peers at one context: see stepq() below
+ *   srvb … the same at a context with a block mode (COAP_BLOCK_USE_LIBCOAP ± COAP_BLOCK_SINGLE_BODY): see stepb() below
  *
  *   mpr      0|1          coap_mcast_per_resource() called on the context
  *   mts      8..          coap_context_set_max_token_size()
@@ -30,6 +31,7 @@
 static int v_code, v_defer;
 static int a_mode; static long a_defer = -1; static unsigned long a_count;   /* asq, see stepa() */
 static int cur_port = -1;   /* srvq: source port of the datagram being processed */
+static int b_mode;          /* srvb: the handler also reports offset / total of coap_get_data_large() */
 static uint8_t *v_pl; static size_t v_pllen;
 static char names[MAXRES + 2][8];
 static coap_resource_t *g_res[MAXRES]; static int g_nres;   /* asq `dr`: the ordinary resources in table order */
@@ -95,6 +97,12 @@ static void hnd(coap_resource_t *r, coap_session_t *s, const coap_pdu_t *req, co
   if (q) s_hex(&hs, q->s, q->length); else s_c(&hs, '-');
   s_c(&hs, ':');
   s_opts(&hs, req); s_c(&hs, ':');
+  if (b_mode) {
+    /* what a handler that follows coap_block(3) reads: the body (or the block) with its place in the body */
+    size_t off = 0, tot = 0;
+    if (coap_get_data_large(req, &len, &data, &off, &tot)) s_hex(&hs, data, len); else s_c(&hs, '-');
+    s_c(&hs, ':'); s_u(&hs, (unsigned long)off); s_c(&hs, ':'); s_u(&hs, (unsigned long)tot);
+  } else
   if (coap_get_data(req, &len, &data)) s_hex(&hs, data, len); else s_c(&hs, '-');
   coap_delete_string(path);
   if (a_mode && !as && a_defer >= 0) {
@@ -490,8 +498,59 @@ locked:
   sim_free_all(0);
 }
 
+/*   srvb <mpr> <mts> <known> <unk> <prx> <res> <bm>  { <peer> <verdict> <hex> }+
+ *
+ * A sequence of unicast request datagrams at ONE server context whose block mode is <bm> (coap_context_set_block_mode():
+ * 0, 1 = COAP_BLOCK_USE_LIBCOAP, 3 = COAP_BLOCK_USE_LIBCOAP|COAP_BLOCK_SINGLE_BODY; resource flag 512 =
+ * COAP_RESOURCE_FLAGS_FORCE_SINGLE_BODY).  Configuration words as in `srv`; one libcoap session per peer.  Output per
+ * datagram, joined by ` ;; `:
+ *   tx=… h=<name:code:path:query:opts:data:offset:total>|- bm=<session->block_mode afterwards>
+ * data / offset / total are what coap_get_data_large() gives the handler. */
+static void stepb(char *line) {
+  char *w[9 + 3 * MAXSTEPS * 2];
+  int n = h_words(line, w, 9 + 3 * MAXSTEPS * 2);
+  coap_context_t *ctx;
+  coap_endpoint_t *ep;
+  int k, bm;
+  if (n < 11 || (n - 8) % 3 || (n - 8) / 3 > 2 * MAXSTEPS) { printf("bad-op"); return; }
+  k = (n - 8) / 3;
+  if (!all_digits(w[7]) || (bm = atoi(w[7])) > 3) { printf("bad-op"); return; }
+  for (int j = 0; j < k; j++) {
+    char **s = w + 8 + 3 * j;
+    size_t l; uint8_t *b;
+    if (!all_digits(s[0]) || atoi(s[0]) > 15 || !ok_verdict(s[1])) { printf("bad-op"); return; }
+    b = h_unhex(s[2], &l); if (!b) { printf("bad-op"); return; } free(b);
+  }
+  if (!setup(w, &ctx, &ep)) { printf(ctx ? "bad-op" : "fail"); if (ctx) sim_free_all(0); return; }
+  coap_context_set_block_mode(ctx, (uint32_t)bm);
+  b_mode = 1;
+  for (int j = 0; j < k; j++) {
+    char **s = w + 8 + 3 * j;
+    coap_address_t src;
+    coap_session_t *ss, *tmp;
+    uint8_t *dg; size_t dglen;
+    unsigned long mode = ctx->block_mode;
+    txs.n = hs.n = 0; if (txs.b) txs.b[0] = 0; if (hs.b) hs.b[0] = 0;
+    cur_port = 40000 + atoi(s[0]);
+    set_verdict(s[1]);
+    dg = h_unhex(s[2], &dglen);
+    sim_addr(&src, cur_port);
+    sim_inject_endpoint(ep, &src, dg, dglen);
+    sim_prepare(ctx);
+    free(dg);
+    SESSIONS_ITER(ep->sessions, ss, tmp) {
+      if (coap_address_get_port(&ss->addr_info.remote) == cur_port) mode = ss->block_mode;
+    }
+    printf("%stx=%s h=%s bm=%lu", j ? " ;; " : "", txs.n ? txs.b : "-", hs.n ? hs.b : "-", mode);
+  }
+  b_mode = 0;
+  sim_tx_logger = NULL;
+  sim_free_all(0);
+}
+
 static void step_any(char *line) {
   if (!strncmp(line, "srvq ", 5)) stepq(line);
+  else if (!strncmp(line, "srvb ", 5)) stepb(line);
   else if (!strncmp(line, "asq ", 4)) stepa(line);
   else step(line);
 }
